@@ -920,6 +920,17 @@ void work_exec_task(const Plan& plan, int task, WorkShared* shared, TaskOut& out
     }
   out.destroyed_ok = true;
 }
+// Process-wide lazy initialisation inside libstdc++ (ctype widen cache, numpunct caches, locale facets) is triggered
+// once here, so that the step count of a run does not depend on what ran earlier in the same process.
+void work_warmup() {
+  std::ostringstream os;
+  os << 1 << ' ' << -2.5 << ' ' << (int64_t)-3 << ' ' << (size_t)4 << std::endl;
+  Paths64 p{Path64{Point64(1, 2), Point64(3, 4)}}; PathsD pd{PathD{PointD(1.5, 2.5)}};
+  os << p << pd;
+  PolyTree64 t; t.AddChild(p[0]); os << t;
+  PolyTreeD td; td.AddChild(p[0]); os << td;
+  std::string s = os.str(); (void)s;
+}
 int work_has_usingz() {
 #ifdef USINGZ
   return 1;
